@@ -47,7 +47,7 @@ type valGen struct {
 // what an omitempty interface field holds: every flavour of "empty or not" —
 // nil, empty and non-empty strings/slices/maps, IsZeroer structs (value and
 // pointer receiver) that are zero or not, plain structs, pointers to those
-var dynEmptyKinds = []string{"nil", "string", "slice_int", "map_string", "struct", "ptr_struct", "int", "pool:ZeroVal", "pool:ZeroVal", "pool:ZeroPtr", "pool:FolderObj", "ptr_int", "pool:ZInt", "pool:ZF64", "pool:ZFlag", "pool:ZU8"}
+var dynEmptyKinds = []string{"nil", "string", "slice_int", "map_string", "struct", "ptr_struct", "int", "pool:ZeroVal", "pool:ZeroVal", "pool:ZeroPtr", "pool:FolderObj", "ptr_int", "pool:ZInt", "pool:ZF64", "pool:ZFlag", "pool:ZU8", "pool:ZStr", "pool:ZList"}
 
 // DrawValue draws a value for the type.
 func DrawValue(t *rapid.T, typ reflect.Type, cfg ValCfg) GoVal {
